@@ -35,6 +35,11 @@ def run(F, rep, tier):
     write_checked(F, rep)
     same_compile(F, rep)
     require_flag(F, rep)
+    # `--no-std changes nothing for programs that do not use the standard library`: the prelude's imports must not capture
+    # the program's own names
+    import c09
+    c09.qualified_lookup(F, rep)
+    prelude_yields(F, rep)
 
 
 def exit_status(F, rep):
@@ -318,3 +323,28 @@ def require_flag(F, rep):
                 got = pp(c["args"][idx])
                 ok = got == want
         rep.ob("REQUIRE", "passed|%s->%s" % (last(src, 2), last(dst, 2)), ok, "%s passes `%s` on to %s" % (last(src, 2), got, last(dst, 2)), fn["sp"])
+
+
+def prelude_yields(F, rep, rule="NO-STD"):
+    """without --no-std the statements of std/preamble.sy (`use list`, `from maybe use (..)`, ..) are appended to every
+    module.  For a program that defines one of those names itself they must give way (or the two modes differ: the
+    program is accepted with --no-std and a `Name collision` error - located in the prelude - without)."""
+    fn = F.fn("sylt_compiler::name_resolution::Resolver::resolve_global_variables")
+    rep.analysed(fn)
+    aware = False
+    for m in nodes(fn_body(fn), "Match"):
+        for a in m["arms"]:
+            if any((pat_variant(x) or "").endswith("Entry::Occupied") for x in pat_alternatives(a["pat"])):
+                txt_nodes = list(nodes(a.get("guard") or {})) + list(nodes(a["body"]))
+                if any((n.get("k") == "Path" and "FileOrLib::Lib" in norm_path(n.get("path") or "")) or
+                       (n.get("k") in ("Struct", "TupleStruct", "PathPat") and "FileOrLib::Lib" in norm_path(n.get("path") or ""))
+                       for n in txt_nodes):
+                    aware = True
+                for mm in nodes(a["body"], "Match"):
+                    for aa in mm["arms"]:
+                        if any("FileOrLib::Lib" in (pat_variant(x) or "") for x in pat_alternatives(aa["pat"])):
+                            aware = True
+    rep.ob(rule, "resolve_global_variables|prelude-imports-yield", aware,
+           "an import that comes from the standard prelude gives way to a definition of the same name in the program" if aware else
+           "resolve_global_variables treats the prelude's imports like the program's own: a program that defines `max`, `set`, "
+           "`Maybe`, .. itself gets `Name collision` (reported inside `sylt standard library preamble`) unless --no-std is given", fn["sp"])
